@@ -335,7 +335,7 @@ func c02Proc(c c02Case, rep *Report) (status uint32, answered bool, ended bool, 
 
 func c02(env *Env, rep *Report) {
 	rep.Rule = "from a token minted by the real GeneratePAAToken in this run: every single-character substitution at every position with each of 67 characters; every single-bit flip of the decoded header, payload and signature; every truncation; segment counts 0..6 and arbitrary strings; re-signing (alg none unsecured / with MAC, HS384, HS512, HS256 under 5 other keys, RS256, embedded JWK, crit / b64 headers); claims signed with the right key (8 issuers, exp x nbf and exp x iat over {absent, now-1h, now-70s, now-50s, now, now+50s, now+70s, now+1h}, odd exp types, unknown / empty access token); JSON flattened / general serialisation and nested JWS; x identity-provider behaviours {honours, unknown, revoked, 500, transport error, answers 'unknown' only after every time-out of the caller has fired}. " +
-		"Every string goes to security.CheckPAACookie; every string of the non-mutation classes and every 7th mutation (thorough: all) additionally travels UTF-16 encoded in a TUNNEL_CREATE packet through the real Processor wired as main.go does. Plus, after another connection was accepted with the minted cookie, TUNNEL_CREATE packets that announce a cookie of that length (half, +-2, double) and carry none or only a prefix of its bytes (3 transports). Plus histories in one process: the same minted cookie presented repeatedly while the IdP changes between honouring, revoking, failing and recovering (7 sequences, checker and Processor): every presentation must follow the IdP's verdict at that moment. Oracle (three-valued, computed with crypto/hmac over the raw text): must-refuse strings must be refused (at the Processor: status E_PROXY_COOKIE_AUTHENTICATION_ACCESS_DENIED, tunnel ended, next packet unanswered), the minted token must be accepted, the rest is unspecified. distinct_nontrivial = distinct cookie strings x IdP behaviours."
+		"Every string goes to security.CheckPAACookie; every string of the non-mutation classes and every 7th mutation (thorough: all) additionally travels UTF-16 encoded in a TUNNEL_CREATE packet through the real Processor wired as main.go does. Plus smart-card authentication enabled next to token authentication with handshakes offering smart card only / both / cookie only x 5 cookie cases x 3 transports. Plus, after another connection was accepted with the minted cookie, TUNNEL_CREATE packets that announce a cookie of that length (half, +-2, double) and carry none or only a prefix of its bytes (3 transports). Plus histories in one process: the same minted cookie presented repeatedly while the IdP changes between honouring, revoking, failing and recovering (7 sequences, checker and Processor): every presentation must follow the IdP's verdict at that moment. Oracle (three-valued, computed with crypto/hmac over the raw text): must-refuse strings must be refused (at the Processor: status E_PROXY_COOKIE_AUTHENTICATION_ACCESS_DENIED, tunnel ended, next packet unanswered), the minted token must be accepted, the rest is unspecified. distinct_nontrivial = distinct cookie strings x IdP behaviours."
 	rep.Assumptions = append(rep.Assumptions, "expiry boundary cases keep 10 s distance from the 60 s leeway (no sub-second wall-clock oracle)", "a signature segment that base64-decodes to the same 32 bytes is the same signature (classified by decoded value)",
 		"identity provider is a scripted http.RoundTripper behind the real go-oidc provider object")
 	InstallIdP()
@@ -467,6 +467,49 @@ func c02(env *Env, rep *Report) {
 		rep.outcome(fmt.Sprintf("clock history -> %v", got))
 		if fmt.Sprint(got) != "[true true false true false false]" {
 			rep.violate("C02/expiry-not-judged-against-the-current-time", fmt.Sprintf("cookie minted at t0 checked at t0, t0+4m, t0+7m, cookie minted at t0+7m checked then, both at t0+27m: accepted=%v, want [true true false true false false]", got), map[string]any{"noreplay": true})
+		}
+	}
+	// smart-card authentication enabled next to token authentication, and a client whose handshake offers
+	// smart card only, both, or cookie only: a tunnel is still created only with an accepted cookie
+	if env.Shard == 0 {
+		vclock.Reset()
+		idp := InstallIdP()
+		idp.Mode = "honour"
+		ctx, _ := c02Ctx()
+		valid, _ := security.GeneratePAAToken(ctx, "alice", hostA+":3389")
+		other := jwsCompact(`{"alg":"HS256","typ":"JWT"}`, `{"iss":"rdpgw","sub":"alice","exp":99999999999,"remoteServer":"x","clientIp":"10.0.0.1","accessToken":"at-alice"}`, "HS256", []byte("ffffffffffffffffffffffffffffffff"))
+		type ck struct {
+			name   string
+			pkt    []byte
+			accept bool
+		}
+		cks := []ck{{"minted", tsgu.TunnelCreate(valid, true), true}, {"no-cookie-field", tsgu.TunnelCreate("", false), false}, {"empty-cookie", tsgu.TunnelCreate("", true), false},
+			{"garbage", tsgu.TunnelCreate("garbage", true), false}, {"signed-with-another-key", tsgu.TunnelCreate(other, true), false}}
+		for _, ext := range []uint16{tsgu.ExtAuthSC, tsgu.ExtAuthSC | tsgu.ExtAuthPAA, tsgu.ExtAuthPAA} {
+			for _, kind := range []string{"proc", "ws", "legacy"} {
+				for _, c := range cks {
+					g := GwCfg{TokenAuth: true, SmartCard: true, HostSelection: "roundrobin", Hosts: []string{hostA + ":3389"}, VerifyIP: true}
+					cfg := SeqCfg{Gw: g, Kind: kind, User: "", ClientIP: "10.0.0.1", RemoteAddr: "10.0.0.1:50000", Accept: func(string) bool { return true }}
+					res := RunSeq(cfg, []Seg{{Bytes: tsgu.Handshake(1, 0, 0, ext)}, {Bytes: c.pkt}, {Bytes: tsgu.TunnelAuth("pc")}})
+					distinct++
+					rep.add("executions", 1)
+					rep.add("transitions", int64(res.StepsRun))
+					if len(res.Panics) > 0 || len(res.Steps) < 2 {
+						continue
+					}
+					st := uint32(0xFFFFFFFF)
+					if len(res.Steps[1].Resps) == 1 {
+						st = tsgu.ParseResp(res.Steps[1].Resps[0]).Status
+					}
+					rep.outcome(fmt.Sprintf("smartcard+token ext=%#x cookie=%s status=%#x", ext, c.name, st))
+					if !c.accept && st == 0 {
+						rep.violate("C02/must-refuse-cookie-accepted-by-processor/smart-card-and-token-authentication/"+c.name, fmt.Sprintf("smart-card and token authentication both enabled, handshake offers %#x, transport %s: TUNNEL_CREATE with %s answered with success", ext, kind, c.name), map[string]any{"noreplay": true})
+					}
+					if c.accept && st != 0 {
+						rep.violate("C02/valid-cookie-refused-by-processor/smart-card-and-token-authentication", fmt.Sprintf("handshake offers %#x, transport %s: status %#x", ext, kind, st), map[string]any{"noreplay": true})
+					}
+				}
+			}
 		}
 	}
 	// non-initial state: after another connection presented the minted cookie and was accepted, a TUNNEL_CREATE
